@@ -12,7 +12,7 @@ import loader, models, interp
 from interp import Machine, SliceRef, RStr, Ptr, Struct, Enum, Opaque, BoxObj, VecObj, Tuple, Unsupported, RustPanic, PathAbort, UNIT
 from models import model, Some, NONE, Ok, Err, deref
 
-PAT_ALPHA = [ord(c) for c in "ab*?[]!\\.-"]   # no "^": a bracket expression starting with ^ is unspecified in POSIX; "-" for ranges
+PAT_ALPHA = [ord(c) for c in "ab*?[]!\\.-^"]   # "-" for ranges; "^" is an ordinary character in a glob (patterns with "[^" are skipped: unspecified in POSIX)
 SUBJ_ALPHA = [ord(c) for c in "ab]!^.\\[*-"]
 
 
@@ -60,6 +60,12 @@ def _chars_as_str(m, args, raw):
 @model("String::new")
 def _string_new(m, args, raw):
     return CStr([])
+
+
+@model("String::is_empty", "str::is_empty", "String::len", "str::len")
+def _string_is_empty(m, args, raw):
+    n = len(cs(args[0]).chars)
+    return n == 0 if raw.endswith("is_empty") else n
 
 
 @model("String::push")
@@ -177,6 +183,13 @@ def parse_bre_subset(r):
                 else:
                     ms.append(members[k]); k += 1
             atom = ("set", neg, ms); i = j + 1
+        elif c == "^":
+            # oniguruma's posix_basic syntax treats an unescaped ^ as the beginning-of-line anchor wherever it stands
+            atoms.append((("bol",), False)); i += 1
+            continue
+        elif c == "$":
+            atoms.append((("eol",), False)); i += 1
+            continue
         elif c == "*" and not atoms:
             atom = ("lit", "*"); i += 1
         else:
@@ -200,6 +213,10 @@ def bre_full_match(atoms, s):
         if ai == len(atoms):
             return si == len(s)
         atom, star = atoms[ai]
+        if atom[0] == "bol":
+            return si == 0 and go(ai + 1, si)
+        if atom[0] == "eol":
+            return si == len(s) and go(ai + 1, si)
         if star:
             k = si
             while True:
@@ -268,7 +285,7 @@ def explore(n, funcs, index, enums, subj_len=3):
             s.add(z3.Or([v != x for v, x in zip(pat, vals)]))
             res["inputs_covered"] += 1
             p = "".join(chr(v) for v in vals)
-            if any(x in p for x in ("[.", "[=", "[:")) or has_reversed_range(p):
+            if any(x in p for x in ("[.", "[=", "[:", "[^")) or has_reversed_range(p):
                 res["skipped_ambiguous"] = res.get("skipped_ambiguous", 0) + 1
                 continue          # (incomplete) collating symbols / classes: outside the reference
             if r.variant == "None":
